@@ -210,3 +210,24 @@ pub fn endpoint_outcome(doc: &Value, dst: &str, caller: &Caller, target: &str) -
         },
     }
 }
+
+/// The document with every duplicate name collapsed to its last occurrence. Used only to *classify* a
+/// disagreement: if the implementation agrees with the reference on this document, the disagreement on the
+/// original is explained by "of two entries with one name only the last is kept".
+pub fn collapse_last(item: &Value) -> Value {
+    let mut it = item.clone();
+    for sect in ["privileges", "identities", "roles"] {
+        if let Some(a) = it["rules"][sect].as_array() {
+            let mut out: Vec<Value> = Vec::new();
+            for (i, e) in a.iter().enumerate() {
+                let name = e["name"].as_str().unwrap_or("");
+                let later = a.iter().skip(i + 1).any(|x| x["name"].as_str().unwrap_or("") == name);
+                if !later {
+                    out.push(e.clone());
+                }
+            }
+            it["rules"][sect] = Value::Array(out);
+        }
+    }
+    it
+}
